@@ -367,6 +367,7 @@ func vcRunC08(t *vcTrial, cfg vc08Cfg) {
 		secondLen, secondWrote := r.rng(1, 64), 0
 		secondMallocs, secondMalloced := r.chance(50), 0
 		secondFlushedTo := uint64(0)
+		thirdFlushed := false
 		thirdBad := ""
 		// a second Flush/Write is only issued where the first cannot end by a write timeout meanwhile:
 		// flushing again after a write timeout is outside the contract (the poller may still be
@@ -416,6 +417,11 @@ func vcRunC08(t *vcTrial, cfg vc08Cfg) {
 				go func() { thirdCh <- conn.Writer().Flush() }()
 				select {
 				case e := <-thirdCh:
+					if e == nil && secondMalloced > 0 {
+						// admitted (the first call had finished by then): it has flushed the bytes the
+						// rejected second call had left submitted
+						thirdFlushed = true
+					}
 					if !errors.Is(e, ErrConcurrentAccess) && !errors.Is(e, ErrConnClosed) {
 						time.Sleep(2 * time.Millisecond) // the first may be between its return and its timestamp
 						if atomic.LoadInt64(&firstRet) == 0 {
@@ -508,7 +514,7 @@ func vcRunC08(t *vcTrial, cfg vc08Cfg) {
 				t.Violate("C08", "nil_with_pending", "%s returned nil with %d bytes still in the output buffer", desc, res.outLen)
 			}
 			w.Flushed = w.Pos
-			if secondMalloced > 0 && secondFlushedTo == 0 {
+			if secondMalloced > 0 && secondFlushedTo == 0 && !thirdFlushed {
 				// the second goroutine's bytes were submitted after the first Flush had started and its
 				// own Flush was rejected: they are not flushed yet
 				w.Flushed = w.Pos - uint64(secondMalloced)
